@@ -473,4 +473,9 @@ def AllSilent (n : Nat) : List Bool → List ConnScript → Prop
   | [], _ => True
   | tcp :: ts, p => PendingSilent tcp n p ∧ AllSilent n ts p.tail
 
+/-- no script at all: every UDP socket is created and stays silent -/
+theorem AllSilent.nil_udp (n : Nat) : ∀ (ts : List Bool), (∀ t ∈ ts, t = false) → AllSilent n ts []
+  | [], _ => True.intro
+  | t :: ts, h => ⟨h t (by simp), AllSilent.nil_udp n ts fun x hx => h x (by simp [hx])⟩
+
 end Gd
